@@ -212,7 +212,7 @@ func c04Wide(c *Ctx, rr *qReal, cases []*qCase, stress map[*qCase][][]interface{
 			}
 		}
 		for fi := range qc.funcs {
-			if qc.sigs[fi].Params().Len() == 0 {
+			if qc.sigs[fi].Params().Len() == 0 || !qPlainParams(qc.sigs[fi]) {
 				continue
 			}
 			if why[fi] != "" {
